@@ -883,9 +883,16 @@ def producer_lattice(rng):
         sigs = [f"sig{j}" for j, m in enumerate(nodes) if j != i and m["emit"]]
         if sigs and rng.random() < 0.4:
             n["wait_for"] = [rng.choice(sigs)]
-    if k >= 2 and rng.random() < 0.3:
-        a, b = rng.sample([n["name"] for n in nodes], 2)
+    if k >= 2 and rng.random() < 0.45:
+        names = [n["name"] for n in nodes]
+        a, b = rng.sample(names, 2)
         nodes.append(gate("G", "ifelse", ["gin"], [a, b], {"gin": INT}))
+        if rng.random() < 0.6:
+            # a second, independent exclusive gate: being in branch i of one gate and branch j of ANOTHER excludes nothing
+            rest = [x for x in names if x not in (a, b)]
+            pool = rest if len(rest) >= 2 and rng.random() < 0.7 else names
+            c, d = rng.sample(pool, 2)
+            nodes.append(gate("G2", "ifelse", ["gin2"], [c, d], {"gin2": INT}))
     rng.shuffle(nodes)
     return {"nodes": nodes, "name": "lattice", "strict": False, "edges": None}
 
